@@ -250,13 +250,24 @@ Fixpoint check_steps (O : oracles) (pre : pool) (ss : list stepobs) (k : nat) : 
 Definition check_hist (h : hist) : option (nat * list nat) :=
   check_steps (h_or h) (h_pool h) (h_steps h) 0.
 
-(* all failing histories of a case file: (history index, step index, codes) *)
+(* every failing step of a history, each judged from the state the implementation was observed in before it (so
+   a step that fails one specification does not hide a later step that fails another) *)
+Fixpoint check_steps_all (O : oracles) (pre : pool) (ss : list stepobs) (k : nat) : list (nat * list nat) :=
+  match ss with
+  | [] => []
+  | s :: t =>
+    let rest := check_steps_all O (apply_delta pre (s_delta s)) t (S k) in
+    match check_step O pre s with
+    | [] => rest
+    | codes => (k, codes) :: rest
+    end
+  end.
+Definition check_hist_all (h : hist) : list (nat * list nat) :=
+  check_steps_all (h_or h) (h_pool h) (h_steps h) 0.
+
+(* all failing steps of a case file: (history index, step index, codes) *)
 Fixpoint failures (hs : list hist) (k : nat) : list (nat * nat * list nat) :=
   match hs with
   | [] => []
-  | h :: t =>
-    match check_hist h with
-    | None => failures t (S k)
-    | Some (i, codes) => (k, i, codes) :: failures t (S k)
-    end
+  | h :: t => map (fun ic => (k, fst ic, snd ic)) (check_hist_all h) ++ failures t (S k)
   end.
